@@ -179,8 +179,10 @@ class Check:
             },
             "assumptions": self.assumptions, "wall_s": wall, "violations": len(self.violations),
         }
-        os.makedirs(os.path.join(VERIF, "evidence"), exist_ok=True)
-        json.dump(jsonable(ev), open(os.path.join(VERIF, "evidence", self.prop + ".json"), "w"), indent=1)
+        # runs against a scratch copy of the repository (VERIF_REPO, mutation trials) never touch the real evidence files
+        evdir = os.path.join(VERIF, "evidence") if not os.environ.get("VERIF_REPO") else os.path.join(VERIF, ".scratch", "evidence")
+        os.makedirs(evdir, exist_ok=True)
+        json.dump(jsonable(ev), open(os.path.join(evdir, self.prop + ".json"), "w"), indent=1)
         print("%s tier=%s obligations=%d discharged=%d inconclusive=%d known=%d violations=%d paths=%d queries=%d solver_s=%.1f wall=%.1fs"
               % (self.prop, self.tier, n_ob, n_dis, len(inconc), len(self.known_hits), len(self.violations), paths, queries, solver_s, wall))
         for o, r in inconc[:12]:
